@@ -8,8 +8,8 @@
    the section whose head is item p_head, p_off bytes from the section's start (None: the item has
    no place).  [members all h] are the items the SIZE pass of load_bss_data_section walks from
    head h, [sec_alloc all h] what it passes to malloc; [image base all h] is the memory the
-   PLACEMENT pass and MIR_link write, byte by byte (None = unspecified), given the addresses
-   [base] of sections, functions and imports. *)
+   PLACEMENT pass, MIR_link and the engines write, byte by byte (None = unspecified), given the
+   addresses [base] of sections, functions and imports and [lab] of labels. *)
 From Coq Require Import List Arith ZArith.
 Import ListNotations.
 From MirV Require Import Base.W64 C14.DataSection C14.DataSectionProofs C14.DataSectionExamples.
@@ -59,42 +59,52 @@ Proof. exact section_size_covers_proof. Qed.
 Print Assumptions section_size_covers.
 
 (* What is found at an item's place is the item's contents ... *)
-Theorem section_contents : forall base all i p it,
+Theorem section_contents : forall base lab all i p it,
   nth_error all i = Some it -> place_of all i = Some p ->
-  slice (image base all (p_head p)) (p_off p) (size_of all it) = content base all it.
+  slice (image base lab all (p_head p)) (p_off p) (size_of all it) = content base lab all it.
 Proof. exact section_contents_proof. Qed.
 Print Assumptions section_contents.
 
 (* ... for data the declared elements, little-endian, in order; for bss zeros; *)
-Theorem data_contents : forall base all i p nm t els,
+Theorem data_contents : forall base lab all i p nm t els,
   nth_error all i = Some (IData nm t els) -> place_of all i = Some p ->
-  slice (image base all (p_head p)) (p_off p) (length els * tsize t)
+  slice (image base lab all (p_head p)) (p_off p) (length els * tsize t)
   = map Some (flat_map (le_bytes (tsize t)) els).
 Proof. exact data_contents_proof. Qed.
 Print Assumptions data_contents.
 
-Theorem bss_contents : forall base all i p nm len,
+Theorem bss_contents : forall base lab all i p nm len,
   nth_error all i = Some (IBss nm len) -> place_of all i = Some p ->
-  slice (image base all (p_head p)) (p_off p) len = repeat (Some 0%Z) len.
+  slice (image base lab all (p_head p)) (p_off p) len = repeat (Some 0%Z) len.
 Proof. exact bss_contents_proof. Qed.
 Print Assumptions bss_contents.
 
 (* ... for a ref the referenced item's address plus the displacement (mod 2^64); *)
-Theorem ref_value : forall base all i p nm target disp,
+Theorem ref_value : forall base lab all i p nm target disp,
   nth_error all i = Some (IRef nm target disp) -> place_of all i = Some p ->
   exists bytes,
-    slice (image base all (p_head p)) (p_off p) 8 = map Some bytes /\
+    slice (image base lab all (p_head p)) (p_off p) 8 = map Some bytes /\
     decode_le bytes = u64 (addr_of base all target + disp).
 Proof. exact ref_value_proof. Qed.
 Print Assumptions ref_value.
 
+(* ... for a label reference the label address, or the difference of two label addresses, plus
+   the displacement (label addresses as the executing engine defines them: an oracle); *)
+Theorem lref_value : forall base lab all i p nm l1 l2 disp,
+  nth_error all i = Some (ILref nm l1 l2 disp) -> place_of all i = Some p ->
+  exists bytes,
+    slice (image base lab all (p_head p)) (p_off p) 8 = map Some bytes /\
+    decode_le bytes = u64 (match l2 with None => lab l1 + disp | Some l2 => lab l1 - lab l2 + disp end).
+Proof. exact lref_value_proof. Qed.
+Print Assumptions lref_value.
+
 (* ... for an expr the value of its expression function, truncated to the result type. *)
-Theorem expr_value : forall base all i p nm fn rt body,
+Theorem expr_value : forall base lab all i p nm fn rt body,
   nth_error all i = Some (IExpr nm fn) -> nth_error all fn = Some (IFunc rt body) ->
   place_of all i = Some p ->
   let n := match rt with TLD => 10 | _ => tsize rt end in
   exists bytes,
-    firstn n (slice (image base all (p_head p)) (p_off p) (tsize rt)) = map Some bytes /\
+    firstn n (slice (image base lab all (p_head p)) (p_off p) (tsize rt)) = map Some bytes /\
     decode_le bytes = (eval base all body mod 256 ^ Z.of_nat n)%Z.
 Proof. exact expr_value_proof. Qed.
 Print Assumptions expr_value.
